@@ -156,7 +156,7 @@ def noise_calls(seed, dims_wanted, quick):
     calls, entries = [], []
     kid = 0
     for d in dims_wanted:
-        for shape, want in (((BATCH, d), 3 if quick else 4), ((d,), 1)):
+        for shape, want in [((BATCH, d), 3), ((d,), 1)] if quick else [((BATCH, d), 4), ((BATCH, d), 4), ((d,), 1), ((d,), 1)]:
             for _ in range(400):
                 kid += 1
                 n = np.asarray(jr.normal(make_key(seed, kid), shape), dtype=np.float32)
@@ -261,7 +261,7 @@ def check_sampler_row(vec, pol_row, ex_row, sm_row, jit=False):
         slo, shi = qf(vec["slo"][j], e), qf(vec["shi"][j], e)
         if not (slo <= fr(v) <= shi):
             raise Mismatch("sample_target_actions:noise_exceeds_clip", f"smoothed action {v!r} is further than noise_clip*half-range from the policy action {float(A)!r}: allowed [{float(slo)}, {float(shi)}] (dimension {j})")
-        if not within(v, X, product_slack(P) + fuse if vec["nint"][j] else Fraction(0)):
+        if not within(v, X, (product_slack(P) if vec["nint"][j] else Fraction(0)) + fuse):
             site = "interior" if vec["sint"][j] else "clipped"
             raise Mismatch(f"sample_target_actions:value:{site}", f"smoothed action {v!r}, specification {float(X)!r} = clip({float(A)} + {float(C)}) in dimension {j}, bounds [{float(lo)}, {float(hi)}]")
 
@@ -727,6 +727,42 @@ def pets_planner_tables(seed, quick, facts):
                 kk = "cem_update:mean_on_face_leaves_box_by_rounding" if on_face else "pets_planner:candidate_out_of_box"
                 facts.append(box_fact(kk, "candidates of the next iteration, " + tag, lo[j], hi[j], s2[:, :, j], how=how))
             n += 1
+        # mpc_action (what PETS sends to the environment) around the real planner functions; the dynamics
+        # model is replaced by a fitness that pulls the plan towards a face of the box
+        for prev in (True, False):
+            kid = 9700 + n
+            how = {"part": "pets", "quick": quick, "n_samples": n_samples, "start": f"mpc_action prev={prev}", "kid": kid, "seed": seed}
+            try:
+                cfg = pets.PETSMPCConfig(plan_horizon=H, n_particles=1, n_samples=n_samples, n_opt_iter=2, init_with_previous_plan=prev,
+                                         reward_model=None, action_space_shape=sp.shape, avg_act=L.jnp.asarray(f(0.5) * (hi + lo)),
+                                         init_var=L.jnp.asarray(var0), sample_fn=sample_fn, update_fn=update_fn)
+                st = pets.PETSMPCState(dynamics_model=None, prev_plan=pets.PETSMPCState.initial_plan(cfg), key=make_key(seed, kid))
+                seen = []
+                acts, plans = [], []
+                for step in range(3):
+                    target = L.jnp.asarray(hi if step % 2 == 0 else lo)
+
+                    def optimize(model, mean, key, obs, target=target):
+                        var = cfg.init_var
+                        for _ in range(cfg.n_opt_iter):
+                            key, k = L.jax.random.split(key)
+                            cand = cfg.sample_fn(mean, var, k)
+                            seen.append(np.asarray(cand).reshape(-1, len(lo)))
+                            mean, var = cfg.update_fn(cand, -L.jnp.sum((cand - target) ** 2, axis=(1, 2)), mean, var)
+                        return mean
+
+                    acts.append(np.asarray(pets.mpc_action(cfg, st, optimize, np.zeros(2, dtype=f))))
+                    plans.append(np.asarray(st.prev_plan))
+            except Exception as e:  # noqa: BLE001
+                facts.append({"kind": "box", "key": f"pets_planner:raises:{type(e).__name__}", "how": how, "tag": f"mpc_action raises {e}", "lo": 0, "hi": 0, "k": 0, "v": [1]})
+                continue
+            acts, plans, seen = np.stack(acts), np.concatenate(plans), np.concatenate(seen)
+            for j in range(len(lo)):
+                tag = f"mpc_action (init_with_previous_plan={prev}) bounds [{lo[j]!r}, {hi[j]!r}]"
+                facts.append(box_fact("pets_planner:mpc_action_out_of_box", "actions, " + tag, lo[j], hi[j], acts[:, j], how=how))
+                facts.append(box_fact("pets_planner:mpc_action_out_of_box", "stored plans, " + tag, lo[j], hi[j], plans[:, j], how=how))
+                facts.append(box_fact("pets_planner:candidate_out_of_box", "candidates, " + tag, lo[j], hi[j], seen[:, j], how=how))
+            n += 1
     return n
 
 
@@ -757,10 +793,17 @@ def _canary_binding(vecs, calls, entries, seed):
         return  # the unchanged vector already fails: reported by the main pass
     for field, want in (("explore", "sample_actions:value"), ("smooth", "sample_target_actions:value")):
         w = copy.deepcopy(v)
-        w[field][0][0] += 1
+        w[field][0] = bumped(v[field][0], v["pert"][0])
         got = [k for k, _, _ in replay_sampler_group([w], calls, entries, seed)]
         if not any(k.startswith(want) for k in got):
             raise tlc.MachineryError(f"binding canary: corrupted {field} value not noticed (got {got})")
+
+
+def bumped(x, p):
+    """Unit-scale rational x moved by four float32 ulps of itself and of the product p it contains."""
+    X, P = qf(x), (p[0] if isinstance(p[0], Fraction) else qf(p))
+    Y = X + 4 * (ulp_at(X) + ulp_at(P)) + (Fraction(1, 2**40) if X == 0 and P == 0 else 0)
+    return [Y.numerator, Y.denominator]
 
 
 def run_fn(rep):
@@ -775,8 +818,10 @@ def run_fn(rep):
     empty = write_json([], "empty")
     boxes = QUICK_BOXES if quick else ALL_BOXES
     cboxes = CEM_QUICK if quick else CEM_BOXES
-    pool = cf.ThreadPoolExecutor(max_workers=3)
+    pool = cf.ThreadPoolExecutor(max_workers=3)   # property runs and canaries
+    gpool = cf.ThreadPoolExecutor(max_workers=2)  # generators (single TLC worker each)
     jobs = {}
+    npath = zpath = None
     try:
         # ---- TLC decides the clauses on the model (lattice draws), and refutes the deviations
         base = dict(Levels="model", NoiseSrc="lattice", Variant="code", EMIT=False)
@@ -801,10 +846,10 @@ def run_fn(rep):
         zcalls, zentries = z_calls(seed, [1, 2, 3], quick)
         zpath = write_json([{k: e[k] for k in ("id", "dim", "n")} for e in zentries], "z")
         gen = {
-            "samplers": pool.submit(_gen, "Bounds", dict(Boxes=set(boxes), Levels="bind", NoiseSrc="file", Variant="code"), {"C10_NOISE": npath}, "boundsgen"),
-            "cem real": pool.submit(_gen, "BoundsCem", dict(Boxes=set(cboxes), NoiseSrc="file", Variant="code", Flow="sample", URows={0}), {"C10_NOISE": zpath}, "cemgen"),
-            "cem lattice": pool.submit(_gen, "BoundsCem", dict(Boxes=set(cboxes), NoiseSrc="lattice", Variant="code", Flow="sample", URows={0}), {"C10_NOISE": empty}, "cemgenlat"),
-            "cem update": pool.submit(_gen, "BoundsCem", dict(Boxes=set(cboxes), NoiseSrc="lattice", Variant="code", Flow="update", URows={0, 3} if quick else {0, 1, 2, 3, 4, 5, 6}), {"C10_NOISE": empty}, "cemgenup"),
+            "samplers": gpool.submit(_gen, "Bounds", dict(Boxes=set(boxes), Levels="bind", NoiseSrc="file", Variant="code"), {"C10_NOISE": npath}, "boundsgen"),
+            "cem real": gpool.submit(_gen, "BoundsCem", dict(Boxes=set(cboxes), NoiseSrc="file", Variant="code", Flow="sample", URows={0}), {"C10_NOISE": zpath}, "cemgen"),
+            "cem lattice": gpool.submit(_gen, "BoundsCem", dict(Boxes=set(cboxes), NoiseSrc="lattice", Variant="code", Flow="sample", URows={0}), {"C10_NOISE": empty}, "cemgenlat"),
+            "cem update": gpool.submit(_gen, "BoundsCem", dict(Boxes=set(cboxes), NoiseSrc="lattice", Variant="code", Flow="update", URows={0, 3} if quick else {0, 1, 2, 3, 4, 5, 6}), {"C10_NOISE": empty}, "cemgenup"),
         }
 
         mark("draws")
@@ -837,7 +882,7 @@ def run_fn(rep):
         mark("samplers eager")
         # the jitted functions the training routines actually call: one policy output per (box, levels, kind)
         jit_levels = {(tuple(v["sigma"]), tuple(v["c"])) for v in g.emitted if qf(v["sigma"]) in (Fraction(1, 4), Fraction(1)) and qf(v["c"]) == Fraction(1, 2)}
-        jit_boxes = ("mix3",) if quick else ("mix3", "mix2", "pos1", "hugeasym1", "asym1")
+        jit_boxes = ("mix3", "mix2", "pos1") if quick else ("mix3", "mix2", "pos1", "hugeasym1", "asym1")
         for k, vs in groups.items():
             if k[0] not in jit_boxes or (k[1], k[2]) not in jit_levels or k[4] != (2 if k[3] == "direct" else 3):
                 continue
@@ -886,7 +931,7 @@ def run_fn(rep):
         import copy
 
         w = copy.deepcopy(next(v for v in gz.emitted if not v["onface"][0]))
-        w["cand"][0][0] += 1
+        w["cand"][0] = bumped(w["cand"][0], [qf(w["z"][0]) * qf(w["csd"][0]), 1])
         if not any(k == "cem_sample:value" for k, _, _ in replay_cem_sample_group([w], zcalls, zentries, seed)):
             raise tlc.MachineryError("binding canary: corrupted CEM candidate not noticed")
         rep.sample({"cem vector": next(v for v in gz.emitted if not v["onface"][0])})
@@ -904,7 +949,6 @@ def run_fn(rep):
         for name, fut in jobs.items():
             r = fut.result()
             if name.startswith("canary"):
-                want = name.split()[-1] if False else None
                 inv = SAMPLER_CANARIES[name.split()[1]][1] if name.split()[1] != "cem" else ("NewMeanInBox" if name.endswith("update") else "CandidateInBox")
                 if r.violated != inv:
                     raise tlc.MachineryError(f"deviation canary not refuted: {name} (violated={r.violated}, expected {inv})")
@@ -919,8 +963,9 @@ def run_fn(rep):
         rep.extra["timing_s"] = {n: round(t - marks[i][1], 1) for i, (n, t) in enumerate(marks[1:])}
         rep.extra["canaries_refuted"] = sorted(SAMPLER_CANARIES) + ["cem unconstrained variance (sample)", "cem sd limited by the full distance", "cem unconstrained variance (update)"]
     finally:
+        gpool.shutdown(wait=True, cancel_futures=True)
         pool.shutdown(wait=True, cancel_futures=True)
-        for p in (empty, locals().get("npath"), locals().get("zpath")):
+        for p in (empty, npath, zpath):
             if p and os.path.exists(p):
                 os.remove(p)
 
@@ -946,6 +991,7 @@ def run_fn(rep):
         "positive homogeneity: the specification computes on unit-scale boxes, the harness applies the factor 2^e (exact in binary floating point); every such vector is compared against the real code at its true scale",
         "rows of a draw whose float32 values need more than 32-bit numerators (|n| small) are checked against the bounds only (BoundsFacts), not against an exact value",
         "tolerance of the exact comparison: half an ulp of sigma*s*n (if that product is not a float32) plus half an ulp of the sum - the two roundings float32 performs",
+        f"jitted samplers: XLA fuses the draw, its scaling and the sum (the draw is not rounded to float32 on the way); an extra {JIT_ULPS} ulp of sigma*s*n is allowed there (measured <= 1.5 ulp)",
         "tanh head: 'up to rounding of the bound itself' is read as 2 ulp of the larger-magnitude bound (roundings of scale, bias and the sum: <= 1.5 ulp)",
         "boxes whose range overflows float32 (high - low = inf) are out of scope",
         "trusted: the projections in harness/drivers/c10_fn.py (float32 -> rational, ordinals, widening of bounds), TLC, CPython/NumPy/JAX",
